@@ -203,6 +203,26 @@ class CtorSpec(SetSpec):
 def perturb_one(rng, t):
     """change exactly one option value or one content; -> (tree, kind)"""
     u = copy.deepcopy(t)
+    if rng.random() < 0.12:
+        # the shape: one more / one fewer trailing change or file, with default (empty) sections —
+        # everything the two trees share stays equal
+        def empty_file():
+            return {'opts': {}, 'meta': {'opts': {'format': 'json'}, 'content': {}}, 'diff': {'opts': {}, 'content': None}}
+        r = rng.random()
+        if r < 0.3 or not u['changes']:
+            u['changes'].append({'opts': {}, 'preamble': {'opts': {}, 'content': None},
+                                 'meta': {'opts': {'format': 'json'}, 'content': {}}, 'files': []})
+        elif r < 0.5:
+            u['changes'].pop()
+        elif r < 0.8:
+            rng.choice(u['changes'])['files'].append(empty_file())
+        else:
+            c = rng.choice(u['changes'])
+            if c['files']:
+                c['files'].pop()
+            else:
+                c['files'].append(empty_file())
+        return u, 'shape'
     secs = [u, u['preamble'], u['meta']]
     for c in u['changes']:
         secs += [c, c['preamble'], c['meta']]
